@@ -11,8 +11,9 @@
 EXTENDS Integers, Sequences, FiniteSets, TLC, Json, IOUtils
 
 CONSTANTS Enforce
-VARIABLES limits, log, credits, bound, bad, l
-tvars == <<limits, log, credits, bound, bad, l>>
+VARIABLES limits, log, credits, bound, bad, l,
+          fresh     \* the endpoint's latest admission has not been used by a request yet
+tvars == <<limits, log, credits, bound, bad, l, fresh>>
 
 Rec == ndJsonDeserialize(IOEnv.TRACE)
 Ev == Rec[l]
@@ -21,11 +22,11 @@ Adv == l' = l + 1
 Chk(label, F) == IF F THEN {} ELSE {label}
 Max(a, b) == IF a > b THEN a ELSE b
 
-TInit == limits = <<>> /\ log = <<>> /\ credits = 0 /\ bound = 0 /\ bad = {} /\ l = 1
+TInit == limits = <<>> /\ log = <<>> /\ credits = 0 /\ bound = 0 /\ bad = {} /\ l = 1 /\ fresh = FALSE
 
 (* limits: sequence of [n, p]; bound: how long after the earliest permitted instant a call may return *)
 TReset == /\ Is("Reset") /\ Adv
-          /\ limits' = Ev.limits /\ bound' = Ev.bound /\ log' = <<>> /\ credits' = 0 /\ bad' = {}
+          /\ limits' = Ev.limits /\ bound' = Ev.bound /\ log' = <<>> /\ credits' = 0 /\ bad' = {} /\ fresh' = FALSE
 
 InWindow(lg, t, p) == Cardinality({i \in DOMAIN lg : lg[i] > t - p})
 WindowOK(lg, t) == \A k \in DOMAIN limits : InWindow(lg, t, limits[k].p) <= limits[k].n
@@ -44,21 +45,29 @@ TAdmit ==
        /\ log' = lg
        /\ bad' = Chk("C09_Window", WindowOK(lg, Ev.t))
               \cup Chk("C09_NoStarvation", Ev.judge_wait => (Ev.ret - Earliest(Ev.call) <= bound))
-    /\ credits' = credits + 1
+    /\ credits' = credits + 1 /\ fresh' = TRUE
     /\ UNCHANGED <<limits, bound>>
 
 (* a call that never came back within the probe's time-out *)
 TStarved == /\ Is("Starved") /\ Adv
             /\ bad' = Chk("C09_NoStarvation", FALSE)
-            /\ UNCHANGED <<limits, log, credits, bound>>
+            /\ UNCHANGED <<limits, log, credits, bound, fresh>>
+
+(* the daemon hands a request to the network (the endpoint is held exclusively from the admission on): the instant the limiter *)
+(* logged for it is the instant it leaves - nothing else was sent on that endpoint in between.  An admission taken early and   *)
+(* used later puts requests closer together on the wire than the log says.                                                    *)
+TSend == /\ Is("Send") /\ Adv
+         /\ bad' = Chk("C09_SentWhenAdmitted", fresh)
+         /\ fresh' = FALSE
+         /\ UNCHANGED <<limits, log, credits, bound>>
 
 (* the CA saw a request on this endpoint: it must have been let through by the limiter *)
 TRequest == /\ Is("Request") /\ Adv
             /\ bad' = Chk("C09_ThroughLimiter", credits > 0)
             /\ credits' = IF credits > 0 THEN credits - 1 ELSE 0
-            /\ UNCHANGED <<limits, log, bound>>
+            /\ UNCHANGED <<limits, log, bound, fresh>>
 
-TNext == TReset \/ TAdmit \/ TStarved \/ TRequest
+TNext == TReset \/ TAdmit \/ TStarved \/ TRequest \/ TSend
 Report == (bad' \cap Enforce # {}) => PrintT(<<"BAD", bad' \cap Enforce, l>>)
 TSpec == TInit /\ [][TNext /\ Report]_tvars
 Accepted == LET d == TLCGet("stats").diameter IN
